@@ -6,6 +6,7 @@ import PsVerif.Model.Bookkeeping
 import PsVerif.Model.Gram
 import PsVerif.Model.NormCalc
 import PsVerif.Model.Proto
+import PsVerif.Model.Sspor
 open PsVerif PsVerif.Proto
 
 def showVerdicts (vs : List StepVerdict) : String :=
@@ -17,12 +18,29 @@ def showVerdictsV (vs : List StepVerdict) : String :=
     s!"{showB v.ok},{v.chosen},{showRat v.chosenN2},{showB v.chosenMasked},{v.bestOff},{showB v.uniq}," ++
       ":".intercalate (v.candN2.map showRat))
 
+def showSsporObs (st : Sspor) (e : Option Err) : String :=
+  let status := match e with | none => "ok" | some e => "E:" ++ e.name
+  let sel := match st.selected with | .ok l => "[" ++ showNats l ++ "]" | .error _ => "!"
+  let rk := match st.ranking with | some l => "[" ++ showNats l ++ "]" | none => "!"
+  let bm := match st.bm with | some (a, b) => s!"({a},{b})" | none => "None"
+  let sq := match st.predictSquare with | some true => "sq" | some false => "rect" | none => "-"
+  s!"{status}|{showOptNat st.nSensors}|{sel}|{rk}|{bm}|{sq}|{showOptNat st.basis.nModes}|{showOptNat st.nBasisModes}"
+
 def handle : P String := do
   let cmd ← tok
   match cmd with
   | "perm" => do
     let n ← nat; let k ← nat; let tr ← listOf nat
     pure s!"ok {showNats (pivLoop (traceOracle tr) n k).toList}"
+  | "sspor" => do
+    let kind ← basisKind; let nm ← optNat; let ctor ← optPyCount; let ops ← listOf ssporOp
+    match Sspor.init { kind := kind, nModes := nm, fitted := none } ctor with
+    | none => pure "ctor-error"
+    | some st0 =>
+      let (_, outs) := ops.foldl (fun (acc : Sspor × List String) op =>
+        let (st', e) := acc.1.step op
+        (st', showSsporObs st' e :: acc.2)) (st0, [])
+      pure ("ok " ++ " ; ".intercalate outs.reverse)
   | "tailshuffle" => do
     let m ← nat; let pre ← listOf nat; let tail ← listOf nat
     pure s!"ok {showNats (tailShuffle (fun _ => tail) m pre)}"
